@@ -1,6 +1,6 @@
 /-
   C12 (also C06) — an emitter's start() overtaken by stop(): the hand-over of the InotifyBuffer between
-  `InotifyEmitter.on_thread_start` and `on_thread_stop` (repaired defect D19), and the tie of its model to the source:
+  `InotifyEmitter.on_thread_start` and `on_thread_stop` (repaired defects D19, D20), and the tie of its model to the source:
   the statement shapes of the four methods, regenerated from the source's AST on every run, are the ones the model was
   written from.
 -/
@@ -9,11 +9,14 @@ import WD.Generated.Handover
 namespace WD.Handover
 open WD.Hand
 
-/-- for every interleaving of the starting and the stopping thread, one step per access of a shared attribute: when both
-    have finished, the buffer that was created has been closed and the emitter does not refer to it any more -/
-theorem handover (sched : List Bool) (h1 : (run {} sched).sp = .done) (h2 : (run {} sched).tp = .done) :
-    ((run {} sched).created = true → (run {} sched).closed = true) ∧ (run {} sched).field = false :=
-  WD.Hand.handover sched h1 h2
+/-- for every interleaving of the starting thread (one `start()`, or a second one after it: `again`) and the stopping
+    thread, one step per access of a shared attribute: when both have finished, the buffer that was created has been
+    closed, the emitter does not refer to it any more, and no second buffer ever replaced a first one (D19, D20) -/
+theorem handover (again : Bool) (sched : List Bool) (h1 : (run (init again) sched).sp = .done)
+    (h2 : (run (init again) sched).tp = .done) :
+    ((run (init again) sched).created = true → (run (init again) sched).closed = true) ∧
+      (run (init again) sched).field = false ∧ (run (init again) sched).lost = false :=
+  WD.Hand.handover again sched h1 h2
 
 /-- the source has the shape the model was written from (regenerated from the AST on every run) -/
 theorem shape_agrees_with_source :
@@ -22,7 +25,7 @@ theorem shape_agrees_with_source :
   decide
 
 /-- non-vacuity: the stopper runs first and finds nothing, the starter creates the buffer, sees the flag and closes it -/
-example : let s := run {} [false, false, true, true, true, true, true, true]
+example : let s := run (init false) [false, false, true, true, true, true, true, true, true, true]
     s.sp = .done ∧ s.tp = .done ∧ s.created = true ∧ s.closed = true := by decide
 
 end WD.Handover
